@@ -79,6 +79,8 @@ Bound(fam, n, k) ==
     [] fam = "diamond_fingerprint" -> 12 * n + 16
     \* one response key selected twice per level, both occurrences spreading the same next fragment: the
     \* occurrences are merged, so every level is planned / compared once, not once per path (2^n paths)
+    \* the same fields compared with the head of a diamond chain first from exclusive, then from non-exclusive parents
+    [] fam = "excldiamond_validate" -> 100 * n * n + 100 * n + 100
     [] fam = "twinchain_validate" -> 40 * n + 40
     [] fam = "twinchain_planexec" -> 20 * n + 20
     [] OTHER -> 0
